@@ -197,7 +197,9 @@ func ruleGL() Rule {
 							okDir = true
 						}
 					}
-					if okDir {
+					if okDir && lstatIsDir(g, gs) {
+						rr.Bad(g, key, call.Pos(), "the directory test uses the FileInfo returned by os.Lstat, which does not follow symbolic links: `link/` and `link/*` no longer select a directory reached through a symlink (and the two arms of Glob disagree about what a directory is)")
+					} else if okDir {
 						rr.OK(g, key, call.Pos(), "dir-test", "appended only when the separator is empty or the path is a directory")
 					} else {
 						rr.Bad(g, key, call.Pos(), "a name followed by the path separator is appended without testing that it is a directory: `*/` returns regular files")
@@ -339,3 +341,40 @@ func isEmptyTest(info *types.Info, e ast.Expr, obj types.Object) bool {
 }
 
 var _ = strings.Contains
+
+// lstatIsDir reports whether a guard calls IsDir on a variable bound to the
+// result of os.Lstat.
+func lstatIsDir(g *core.Func, gs []guard) bool {
+	info := g.Info()
+	lstatVars := map[types.Object]bool{}
+	g.OwnNodes(func(n ast.Node) bool {
+		as, ok := n.(*ast.AssignStmt)
+		if !ok || len(as.Rhs) != 1 {
+			return true
+		}
+		if call, ok := as.Rhs[0].(*ast.CallExpr); ok && calleeName(info, call) == "os.Lstat" {
+			if id, ok := as.Lhs[0].(*ast.Ident); ok && id.Name != "_" {
+				if o := info.Defs[id]; o != nil {
+					lstatVars[o] = true
+				} else if o := info.Uses[id]; o != nil {
+					lstatVars[o] = true
+				}
+			}
+		}
+		return true
+	})
+	found := false
+	for _, gd := range gs {
+		ast.Inspect(gd.cond, func(n ast.Node) bool {
+			if call, ok := n.(*ast.CallExpr); ok {
+				if se, ok := call.Fun.(*ast.SelectorExpr); ok && se.Sel.Name == "IsDir" {
+					if id, ok := ast.Unparen(se.X).(*ast.Ident); ok && lstatVars[info.Uses[id]] {
+						found = true
+					}
+				}
+			}
+			return true
+		})
+	}
+	return found
+}
